@@ -144,6 +144,11 @@ class DataModels:
         ln = line_of(node)
         if b is None:
             raise PyExc('TypeError', ln, 'None is not subscriptable')
+        from .vals import SOpt as _SOpt
+        if isinstance(b, _SOpt):
+            if not I.pure and I.ctx.branch(b.isnone):
+                raise PyExc('TypeError', ln, 'None is not subscriptable')
+            return self.getitem(I, b.val, k, node)
         if isinstance(b, SRec):
             if isinstance(k, str):
                 if k in b.fields:
@@ -350,6 +355,14 @@ class DataModels:
             raise Unsupported('del item')
 
     def contains(self, I, container, x, node=None):
+        from .vals import SOpt as _SOpt
+        if isinstance(container, _SOpt):
+            if I.pure:
+                # contract clause over an optional container kept symbolic: nothing is in None
+                return zand(znot(container.isnone), self.contains(I, container.val, x, node))
+            if I.ctx.branch(container.isnone):
+                raise PyExc('TypeError', line_of(node), 'argument of type NoneType is not iterable')
+            return self.contains(I, container.val, x, node)
         if isinstance(x, Code) and isinstance(container, (tuple, list, set, frozenset)) and \
                 all(isinstance(y, str) for y in container):
             x.cands = sorted(container)        # hint for later case splits (soundness: see code_str)
